@@ -28,6 +28,9 @@ def check(ctx):
     ctx.rule("C02-I", "a node kind that starts a line of its own (<br>) is estimated at min_width >= 1, so that width_minus "
              "refuses a block whose marker leaves no column for it")
     ctx.guard("C02-I", widths.rule_line_emitters_need_a_column, "C02-I")
+    ctx.rule("C02-J", "the hard-wrap loop's count of the room left on the line starts from width − line.len, is reset to width "
+             "only directly after a flush, and otherwise only decreases")
+    ctx.guard("C02-J", widths.rule_room_counter, "C02-J")
     ctx.guard("C02-A", widths.rule_wrap_width, "C02-A")
     ctx.guard("C02-B", widths.rule_sub_widths, "C02-B")
     ctx.guard("C02-C", widths.rule_width_minus_def, "C02-C")
